@@ -126,11 +126,16 @@ class C04(Check):
             k = rng.choice([1, 1, 2, 3, 5, n])
             idxs = list(range(i, min(n, i + k)))
             i += len(idxs)
-            style = rng.choice(["whole", "whole", "bytewise", "header", "random", "random", "boundaries"])
+            style = rng.choice(["whole", "whole", "bytewise", "header", "random", "random", "boundaries", "aligned"])
             bursts.append({"msgs": idxs, "style": style, "ncuts": rng.choice([1, 2, 3, 6]),
                            "cutseed": rng.getrandbits(30), "gap": rng.choice([0.0, 0.0002, 0.002, 0.02, 0.3]),
                            "at": t})
             t += rng.choice([0.0, 0.001, 0.01, 0.1, 1.2])
+        if index % 16 == 9:
+            # size boundary: a burst whose total length is an exact multiple of 4096, delivered in 4096-byte reads
+            n = rng.choice([4, 8, 12])
+            msgs = [{"kind": "app_req", "pad": 0, "dhost": False, "code": 316} for _ in range(n)]
+            bursts = [{"msgs": list(range(n)), "style": "aligned4096", "gap": rng.choice([0.002, 0.02]), "at": 0.0}]
         if sweep:
             bursts = [{"msgs": list(range(n)), "style": "sweep",
                        "pos": (index // 8) if tier == "thorough" else rng.getrandbits(30),
@@ -142,6 +147,9 @@ class C04(Check):
                        "cutseed": rng.getrandbits(30), "gap": 0.0, "at": 0.0}]
         return {"mode": mode, "msgs": msgs, "bursts": bursts, "max_steps": 6_000_000 + 30000 * n,
                 "consumer_early": rng.random() < 0.5,
+                # the peer ends the connection with a DPR right behind its last message: everything it sent
+                # before must still reach the application (an eager consumer is running)
+                "end_with_dpr": rng.random() < 0.2,
                 "outbound": rng.choice([0, 0, 2, 5]),
                 "sched": draw_sched(rng), "knobs": draw_knobs(rng),
                 "net": {"max_latency": rng.choice([0.0005, 0.003, 0.02])},
@@ -213,6 +221,12 @@ class C04(Check):
             off += len(e)
         if style == "boundaries":
             return [b for b in bounds if b > 0]
+        if style == "aligned4096":
+            return [c for c in range(4096, total, 4096)]
+        if style == "aligned":
+            # segments that are exact multiples of a power of two (read-size boundaries)
+            q = r.choice([4096, 4096, 1024, 8192, 65536])
+            return [c for c in range(q, total, q)]
         if style == "header":
             out = []
             for b in bounds:
@@ -233,6 +247,12 @@ class C04(Check):
         sim = w.sim
         violations = []
         tick = w.world.knobs["STATE_MACHINE_TICKER"]
+        if any(b["style"] == "aligned4096" for b in scn["bursts"]):
+            scn = dict(scn, msgs=[dict(m) for m in scn["msgs"]])
+            for i, m in enumerate(scn["msgs"]):
+                base_len = len(C.enc_msg(build_msg(dict(m, pad=0), i)))
+                # pad AVP costs 8 bytes of header + data rounded up to 4: make the message exactly 1024 bytes
+                m["pad"] = 1024 - base_len - 8
         refs = [build_msg(s, i) for i, s in enumerate(scn["msgs"])]
         encs = [C.enc_msg(m) for m in refs]
         n = len(refs)
@@ -288,16 +308,21 @@ class C04(Check):
                 stats["segments"] += len(segs) - 1
                 delays = None
                 if b.get("gap"):
-                    delays = [w.net.cfg.min_latency + i * b["gap"] for i in range(len(cuts) + 1)]
-                    if len(delays) > 200:
-                        delays = None
+                    # spread the pieces out, but keep the whole burst within ~2 simulated seconds
+                    g = min(b["gap"], 2.0 / (len(cuts) + 1))
+                    delays = [w.net.cfg.min_latency + i * g for i in range(len(cuts) + 1)]
 
                 def go(b=b, cuts=cuts, delays=delays):
                     w.peer.send_stream([refs[j] for j in b["msgs"]], cuts=cuts, delays=delays)
                 when = t0 + b["at"]
                 last_send[0] = max(last_send[0], when + (max(delays) if delays else 0.0) + w.net.cfg.max_latency)
                 sim.at(when, go)
-            if not scn.get("consumer_early"):
+            if scn.get("end_with_dpr"):
+                if not scn.get("consumer_early"):
+                    w.start_consumer()
+                w.peer.b["answer_dpr"] = True
+                sim.at(last_send[0] + 1e-6, lambda: w.peer.send(C.dpr(PEER_HOST, PEER_REALM, hbh=0x7001, e2e=0x7002)))
+            elif not scn.get("consumer_early"):
                 sim.sleep(min(0.05, max(0.0, last_send[0] - sim.now)))
                 w.start_consumer()
             # wait until everything sent has been delivered to the socket buffer
@@ -311,6 +336,10 @@ class C04(Check):
         sim.run_main(main)
 
         # ---------------- oracle ----------------
+        if sim.halt_reason in ("max_steps", "horizon"):
+            # the run's step / time budget ran out before the liveness deadline: nothing can be concluded
+            return base_result(sim, [], summary=dict(stats, note="budget exhausted before the verdict: inconclusive"),
+                               extra={"split_msgs": 0, "coalesced": 0, "faults": {"inconclusive_budget_exhausted": 1}})
         if not stats["opened"]:
             # cannot judge C04 without an open connection; C06 judges opening
             return base_result(sim, [], summary=dict(stats, note="node did not open"),
